@@ -119,6 +119,9 @@ pub struct Plan {
     /// F-ready (async kinds): per-mille of the gate futures that complete in their very first poll
     pub ready_pm: u32,
     pub ready_seed: u64,
+    /// F-yield (async kinds): per-mille of the gate futures that, at their first poll, wake THEMSELVES from inside the poll, return
+    /// Pending and are complete at the next poll (`yield_now` style); nobody else ever wakes them
+    pub yield_pm: u32,
 }
 
 impl Default for Plan {
@@ -138,6 +141,7 @@ impl Default for Plan {
             fresh_wakers: false,
             ready_pm: 0,
             ready_seed: 0,
+            yield_pm: 0,
         }
     }
 }
@@ -194,6 +198,7 @@ impl Global {
                 fresh_wakers: false,
                 ready_pm: 0,
                 ready_seed: 0,
+                yield_pm: 0,
             },
             log: Vec::new(),
             occ: BTreeMap::new(),
